@@ -169,9 +169,23 @@ def _append_whole(cb, ctm, crt):
 def _nested_flatten(cb, ctm, crt):
     """all points of all inputs in order, written as two nested loops with one push per point into the returned collection"""
     loops = sorted(cb.natural_loops(), key=lambda l: -len(l[1]))
-    if len(loops) != 2 or not (set(loops[1][1]) < set(loops[0][1])):
+    # the copying pair: a loop nested in another; further loops (e.g. one that only sizes the buffer) may exist but must not
+    # push, return or skip
+    pairs = [(o, i) for o in loops for i in loops if o is not i and set(i[1]) < set(o[1])]
+    if len(pairs) != 1:
         return False
-    outer, inner = loops
+    outer, inner = pairs[0]
+    for l in loops:
+        if l is outer or l is inner:
+            continue
+        for bb in l[1]:
+            t_ = cb.blocks[bb]["term"]
+            if t_["k"] == "return" or (t_["k"] == "call" and re.search(r"Vec::<T, A>::(push|extend\w*|insert|append)$", (callee_key(t_["func"]) or "").split("{")[0])):
+                return False
+    # every turn of the outer loop goes through the inner loop (no input is skipped)
+    latches = [a for a in cb.pred[outer[0]] if a in outer[1]]
+    if not latches or not all(cb.dominates(inner[0], a) for a in latches):
+        return False
     orows = [r for r in iteration_table(cb, outer[0]) if r.kind != "diverge"]
     irows = [r for r in iteration_table(cb, inner[0]) if r.kind != "diverge"]
     if not orows or not irows or not all(r.conds for r in orows + irows):
@@ -187,11 +201,18 @@ def _nested_flatten(cb, ctm, crt):
         isrc = isrc[2][0]
     if osrc != ("call", "std::slice::<impl [T]>::iter", (("arg", 1),)):
         return False
-    if not (isrc[0] == "call" and isrc[1].endswith("::points") and isrc[2] == (o0[1],)):
+    by_points = isrc[0] == "call" and isrc[1].endswith("::points") and isrc[2] == (o0[1],)
+    by_coords = isrc == ("call", "std::slice::<impl [T]>::iter", (("field", o0[1], "0"),))
+    if not (by_points or by_coords):
         return False
     backs = [r for r in irows if r.kind == "back" and r.conds[0][1] == "Some"]
     pushes = [[clean(v) for _, k, v in r.sites if k and k.endswith("Vec::<T, A>::push")] for r in backs]
-    if not backs or any(len(p_) != 1 or p_[0][2][1] != i0[1] for p_ in pushes):
+    def _is_elem(v_):
+        # the point itself, or Point::from(coordinate) / Point(coordinate) of the element
+        while v_ != i0[1] and ((v_[0] == "call" and len(v_[2]) == 1 and re.search(r"Point|::from$|Into<U>>::into$", v_[1])) or (v_[0] == "agg" and "Point" in v_[1] and len(v_[3]) == 1)):
+            v_ = v_[2][0] if v_[0] == "call" else v_[3][0][1]
+        return v_ == i0[1]
+    if not backs or any(len(p_) != 1 or not _is_elem(p_[0][2][1]) for p_ in pushes):
         return False
     sink = pushes[0][0][2][0]
     # no push outside the inner loop, no other exit than exhaustion, and the sink is what is returned
